@@ -31,6 +31,7 @@ type c15SrcCell struct {
 	Raw     string `json:"raw"`
 	Kind    string `json:"kind"`
 	Covered bool   `json:"covered"`
+	Absent  bool   `json:"absent"` // the row is shorter in the source: no cell at this position
 	Rs      int    `json:"rs"`
 	Cs      int    `json:"cs"`
 }
@@ -49,6 +50,7 @@ type c15El struct {
 	W       string         `json:"w"`
 	Items   []c15Item      `json:"items"`
 	Uniform bool           `json:"uniform"`
+	Ragged  bool           `json:"ragged"` // rows with differing numbers of cells
 	Nav     bool           `json:"nav"` // the element sits inside a <nav> block (history documents)
 }
 
@@ -123,6 +125,9 @@ func c15TableFeature(el *c15El, r, c int, md string) string {
 				return "pipe"
 			}
 		}
+	}
+	if el.Ragged {
+		return "ragged"
 	}
 	if el.Merged {
 		return "merged"
